@@ -1,10 +1,160 @@
-(** C13 — Generic instantiation and monomorphization preserve meaning (property theorems). *)
+(** C13 — Generic instantiation and monomorphization preserve meaning.
+
+    All statements are about the executable model [Model.v] of guppylang's
+    Instantiator / FunctionType.instantiate_partial / compile_variable_idx / to_hugr under
+    partial monomorphization; the model is tied to /repo by the differential correspondence
+    of props/C13/check.py on every run.  Quantification is over ALL well-scoped signatures
+    (unbounded parameter lists, unbounded type depth).  Values are not modelled: "same
+    runtime results" is reduced to these type-level laws (there is no emulator for /repo's
+    HUGR). *)
 From Coq Require Import ZArith List Bool Arith.
 From V.C13 Require Import Model Proofs.
 Import ListNotations.
 
-(* instantiating a term with a full argument list = textual simultaneous substitution *)
+(* a signature used by the Examples: forall T, (c1: nat @comptime), U.  (T, arr[U, c1]) -> (U, T) *)
+Definition ex_f : fty :=
+  mk_fty [TVar 0 true true; TOpq 0 [TVar 2 false true; CVar (TNum KNat) 1]; TNum KNat]
+         [FNo; FOwned; FComptime]
+         (TTup [TVar 2 false true; TVar 0 true true] false)
+         [PTy 0 true true; PCon 1 (TNum KNat) true; PTy 2 false true].
+
+(** 1. instantiate = textual simultaneous substitution (terms and whole signatures) *)
 Theorem instantiate_full_subst_tm : forall d l t, scoped (length l) t = true ->
   insf l t = subst (fun i => nth i l d) t.
 Proof. exact insf_subst. Qed.
 Print Assumptions instantiate_full_subst_tm.
+
+Theorem instantiate_full_subst : forall d f args,
+  wf_fty f = true -> length args = length (f_params f) ->
+  let r := fun i => nth i (map set_preserve args) d in
+  instantiate f args = mkF (map (subst r) (f_ins f)) (f_fl f) (subst r (f_out f)) []
+                           (map (subst r) (f_cargs f)).
+Proof. exact instantiate_subst. Qed.
+Print Assumptions instantiate_full_subst.
+
+Example instantiate_full_subst_ex :
+  wf_fty ex_f = true /\
+  instantiate ex_f [TTup [TNum KInt] false; CVal (TNum KNat) 4; TNum KFloat]
+  = mkF [TTup [TNum KInt] true; TOpq 0 [TNum KFloat; CVal (TNum KNat) 4]; TNum KNat]
+        [FNo; FOwned; FComptime] (TTup [TNum KFloat; TTup [TNum KInt] true] false) []
+        [CVal (TNum KNat) 4].
+Proof. vm_compute. auto. Qed.
+
+(** 2. instantiating a subset and then the rest = instantiating all at once (structural
+       equality of the whole signature: inputs, output, remaining parameters, comptime args),
+       for signatures whose const parameter types are closed *)
+Theorem instantiate_partial_compose : forall f a1 a2,
+  wf_fty f = true -> closed_ctypes (f_params f) = true -> forallb arg_closed a1 = true ->
+  length a1 = length (f_params f) -> length a2 = length (filter is_none a1) ->
+  instantiate_partial (instantiate_partial f a1) a2 = instantiate_partial f (compose_args a1 a2).
+Proof. exact ip_compose_strict. Qed.
+Print Assumptions instantiate_partial_compose.
+
+Example instantiate_partial_compose_ex :
+  let a1 := [None; Some (CVal (TNum KNat) 4); None] in
+  let a2 := [Some (TNone false); None] in
+  closed_ctypes (f_params ex_f) = true /\ forallb arg_closed a1 = true /\
+  compose_args a1 a2 = [Some (TNone false); Some (CVal (TNum KNat) 4); None] /\
+  f_params (instantiate_partial (instantiate_partial ex_f a1) a2) = [PTy 0 false true] /\
+  f_out (instantiate_partial (instantiate_partial ex_f a1) a2)
+    = TTup [TVar 0 false true; TNone true] false.
+Proof. vm_compute. auto 6. Qed.
+
+(*    With DEPENDENT const parameter types the law fails under structural equality: the
+      BoundConstVar substituted for a remaining const parameter carries the parameter's
+      un-instantiated type (stale annotation).  Witness replayed on /repo (known finding). *)
+Definition dep_f : fty :=
+  mk_fty [TVar 0 true true; TOpq 1 [CVar (TVar 0 true true) 1]] [FNo; FNo] (TVar 0 true true)
+         [PTy 0 true true; PCon 1 (TVar 0 true true) false].
+Theorem instantiate_partial_compose_dependent_refuted : exists f a1 a2,
+  wf_fty f = true /\ forallb arg_closed a1 = true /\
+  length a1 = length (f_params f) /\ length a2 = length (filter is_none a1) /\
+  instantiate_partial (instantiate_partial f a1) a2 <> instantiate_partial f (compose_args a1 a2)
+  /\ erase_fty (instantiate_partial (instantiate_partial f a1) a2)
+     = erase_fty (instantiate_partial f (compose_args a1 a2)).
+Proof.
+  exists dep_f, [Some (TNum KInt); None], [None]. vm_compute.
+  repeat split; auto. intro H. discriminate H.
+Qed.
+Print Assumptions instantiate_partial_compose_dependent_refuted.
+
+(** 3. the remaining parameters: the unspecialised ones in their original order, renumbered
+       0..k-1, const bounds instantiated with the instantiation of the earlier parameters *)
+Theorem remaining_params_spec : forall f a,
+  f_params (instantiate_partial f a) = remaining_spec (f_params f) a [] 0.
+Proof.
+  intros. unfold instantiate_partial. rewrite ip_loop_spec. simpl. apply ip_spec_remaining.
+Qed.
+Print Assumptions remaining_params_spec.
+
+(*    instantiate_partial with no argument given is the identity EXCEPT that with_idx forgets
+      from_comptime_arg (replayed on /repo, known finding; harmless for HUGR because
+      comptime_args is passed on explicitly) *)
+Theorem identity_drops_comptime_flag_refuted : exists f,
+  wf_fty f = true /\ instantiate_partial f (map (fun _ => None) (f_params f)) <> f /\
+  instantiate_partial f (map (fun _ => None) (f_params f))
+  = mkF (f_ins f) (f_fl f) (f_out f) (map drop_ct (f_params f)) (f_cargs f).
+Proof. exists ex_f. vm_compute. repeat split; auto. intro H. discriminate H. Qed.
+Print Assumptions identity_drops_comptime_flag_refuted.
+
+(** 4. compile_variable_idx = rank among the unspecialised parameters: strictly increasing
+       on them, below their number, and onto 0..k-1 *)
+Theorem compile_variable_idx_rank : forall (m : list (option tm)),
+  let k := length (filter is_none m) in
+  (forall i, nth_error m i = Some None -> compile_variable_idx i m < k) /\
+  (forall i j, i < j -> nth_error m i = Some None ->
+               compile_variable_idx i m < compile_variable_idx j m) /\
+  (forall r, r < k -> exists i, nth_error m i = Some None /\ compile_variable_idx i m = r).
+Proof.
+  intros m k. split; [|split].
+  - intros i E. apply rank_lt_total, E.
+  - intros i j L E. apply rank_strict; auto.
+  - intros r L. apply rank_onto, L.
+Qed.
+Print Assumptions compile_variable_idx_rank.
+
+Example compile_variable_idx_ex :
+  map (fun i => compile_variable_idx i [None; Some (TNum KInt); None; None; Some (TNum KNat)])
+      [0; 2; 3] = [0; 1; 2].
+Proof. reflexivity. Qed.
+
+(** 5. type-level commutation: translating a type to HUGR under a partial monomorphization
+       (CompilerContext.type_var_to_hugr / const_var_to_hugr with current_mono_args = m)
+       = HUGR-level specialisation of the generic translation (to_hugr_poly's body): the
+       specialised variables are replaced by the translated arguments, the others are
+       renumbered by their rank.  Errors (HErr = InternalGuppyError) commute too. *)
+Theorem to_hugr_monomorphize_commutes : forall m t, mono_ok m t = true ->
+  to_hugr_m m t = hspec (mono_harg m) (fun i => compile_variable_idx i m) (to_hugr0 t).
+Proof. exact to_hugr_mono_hspec. Qed.
+Print Assumptions to_hugr_monomorphize_commutes.
+
+Example to_hugr_monomorphize_commutes_ex :
+  let m := [Some (TTup [TNum KInt] false); None; None] in
+  let t := TFun (f_ins ex_f) (f_fl ex_f) (f_out ex_f) in
+  mono_ok m t = true /\
+  to_hugr_m m t = HFun [HTup [HInt]; HOpq 0 [HVar 1 false; HVarArg 0]]
+                       [HVar 1 false; HTup [HInt]].
+Proof. vm_compute. auto. Qed.
+
+(** 6. partially_monomorphize_args (no outer monomorphization) marks exactly: the const
+       parameters whose instantiated type is not nat, and every parameter mentioned in the
+       original non-nat type of a const parameter; marked entries carry the given argument,
+       all others stay None.  Hypothesis: each const parameter's idx points at its own
+       argument (true when idx = position). *)
+Theorem partially_monomorphize_args_marks_exactly : forall ps args j,
+  length ps = length args -> j < length args ->
+  Forall (fun pa => forall i t c, fst pa = PCon i t c -> nth_error args i = Some (snd pa))
+         (combine ps args) ->
+  nth_error (fst (partially_monomorphize_args ps args None)) j
+  = Some (if needs_mono ps args j then nth_error args j else None).
+Proof. exact pma_marks. Qed.
+Print Assumptions partially_monomorphize_args_marks_exactly.
+
+Example partially_monomorphize_args_ex :
+  (* forall T, (x: T), (n: nat).  T := nat: only T is monomorphized; T := int: T and x *)
+  let ps := [PTy 0 true true; PCon 1 (TVar 0 true true) true; PCon 2 (TNum KNat) false] in
+  fst (partially_monomorphize_args ps [TNum KNat; CVal (TNum KNat) 5; CVal (TNum KNat) 2] None)
+    = [Some (TNum KNat); None; None] /\
+  fst (partially_monomorphize_args ps [TNum KInt; CVal (TNum KInt) 5; CVal (TNum KNat) 2] None)
+    = [Some (TNum KInt); Some (CVal (TNum KInt) 5); None].
+Proof. vm_compute. auto. Qed.
